@@ -270,6 +270,19 @@ def CollisionFree (evs : List Event) : Prop :=
 instance (evs : List Event) : Decidable (CollisionFree evs) := by
   unfold CollisionFree; infer_instance
 
+/-! ### the "dropped PIDs" clause of C05 at full strength (FALSE of the pinned code: F7) -/
+
+/-- **The "dropped PIDs" clause at full strength, for PMTs**: in a well-formed collision-free
+history, a PID listed by a PMT version on `p` and not listed by the NEXT PMT version applied on `p` is
+un-routed after that version. -/
+def DroppedClausePmt : Prop :=
+  ∀ (pre mid : List Event) (p v1 v2 : Nat) (b1 b2 : Bytes) (q : Nat),
+    WF initRoute (pre ++ (.pmtApplied p v1 b1 :: mid ++ [.pmtApplied p v2 b2])) →
+    CollisionFree (pre ++ (.pmtApplied p v1 b1 :: mid ++ [.pmtApplied p v2 b2])) →
+    (∀ ev ∈ mid, ∀ v b, ev ≠ .pmtApplied p v b) →
+    q ∈ (streamsOf b1).map StreamInfo.pid → q ∉ (streamsOf b2).map StreamInfo.pid →
+    routeOf (run initRoute (pre ++ (.pmtApplied p v1 b1 :: mid ++ [.pmtApplied p v2 b2]))) q = none
+
 /-! ### which packets realise a history -/
 
 /-- `pks` are the packets of ONE intact transmission of the section `S` on PID `pid`: every packet
